@@ -77,7 +77,7 @@ Print Assumptions C14_container_atomic_array.
 Theorem C14_container_atomic_htable_expand : forall hash f t h,
   (forall r h', ht_expand hash f t h = Ok (r, h') -> fst r = false ->
      snd r = t /\ h_live h' = h_live h /\ exists j, j < ht_prealloc_count t /\ f (h_next h + j) = false) /\
-  (forall j, Nat.eqb (ht_size t) (Z.to_nat ARES__HTABLE_MAX_BUCKETS) = false ->
+  (forall j, Z.eqb (Z.of_nat (ht_size t)) ARES__HTABLE_MAX_BUCKETS = false ->
      j < ht_prealloc_count t -> f (h_next h + j) = false ->
      exists h', ht_expand hash f t h = Ok ((false, t), h') /\ h_live h' = h_live h).
 Proof. exact ht_expand_c14. Qed.
